@@ -8,14 +8,14 @@ UNIT = dict(
   drops='templates (value_type = opaque word); the container is replaced by a stub generated from the contracts proved in unit gca '
         '(get_entry injective modulo capacity, put/get round trip, grow preserves every live index); by-reference result parameter becomes a pointer',
   sources=[
-    dict(COMMON, id='try_push', file=F, sig=r'bool chase_work_stealing_deque<T, Policies...>::try_push\(value_type item\)',
+    dict(COMMON, id='try_push', loop_free='cwsd.try_push.loop_free', file=F, sig=r'bool chase_work_stealing_deque<T, Policies...>::try_push\(value_type item\)',
          c_sig='static _Bool cwsd_try_push(struct cwsd* self, entry item)',
          must_fire={'A_LOAD': 2, 'A_STORE': 1, 'method:grow': 1, 'method:put': 1}),
-    dict(COMMON, id='try_pop', file=F, sig=r'bool chase_work_stealing_deque<T, Policies...>::try_pop\(value_type& result\)',
+    dict(COMMON, id='try_pop', loop_free='cwsd.try_pop.loop_free', file=F, sig=r'bool chase_work_stealing_deque<T, Policies...>::try_pop\(value_type& result\)',
          c_sig='static _Bool cwsd_try_pop(struct cwsd* self, entry* result_p)',
          subst=[(r'\bresult\b', '(*result_p)', 'result_ref')],
          must_fire={'A_LOAD': 3, 'A_STORE': 4, 'A_CAS': 1, 'method:get': 1}),
-    dict(COMMON, id='try_steal', file=F, sig=r'bool chase_work_stealing_deque<T, Policies...>::try_steal\(value_type& result\)',
+    dict(COMMON, id='try_steal', loop_free='cwsd.try_steal.loop_free', file=F, sig=r'bool chase_work_stealing_deque<T, Policies...>::try_steal\(value_type& result\)',
          c_sig='static _Bool cwsd_try_steal(struct cwsd* self, entry* result_p)',
          subst=[(r'\bresult\b', '(*result_p)', 'result_ref')],
          must_fire={'A_LOAD': 2, 'A_CAS': 1, 'method:get': 1}),
@@ -28,6 +28,9 @@ UNIT = dict(
     dict(id='pop_int', entry='h_pop_int', mode='INT', cls='unbounded'),
   ],
   obligations={
+    'cwsd.try_push.loop_free': dict(deciding=True, text='try_push contains no loop or goto: it finishes in a fixed number of own steps plus one call of grow (whose loop has a decreases clause, unit gca run grow_routeD)'),
+    'cwsd.try_pop.loop_free': dict(deciding=True, text='try_pop contains no loop or goto (wait-free)'),
+    'cwsd.try_steal.loop_free': dict(deciding=True, text='try_steal contains no loop or goto (wait-free)'),
     'cwsd.push.appends': dict(deciding=True, text='try_push: fails iff full and not growable (state unchanged); otherwise bottom+1, top unchanged, item stored at the old bottom, every live index keeps its item; grows exactly when full'),
     'cwsd.pop.newest': dict(deciding=True, text='try_pop: false iff empty (unchanged); otherwise returns the item at bottom-1, removes exactly it (LIFO), other live indices keep their items'),
     'cwsd.steal.oldest': dict(deciding=True, text='try_steal (no interference): false iff empty; otherwise returns the item at top and advances top by one'),
